@@ -51,7 +51,7 @@ META = {
          'fakegdb stand-in (cross-checked with real gdb on a mock in the thorough tier).'),
  'C16': ('metamorphic PBT (constant time shift) + exact microsecond arithmetic oracle for time column and separators, in log sessions and on the connection-id interface (connections closing and opening over time)',
          'Displayed times and separators are recomputed in exact integer microseconds; shifted logs must display the same.',
-         'The exactly-one-second gap is undetermined in binary floating point and skipped unless every time of the log is a whole number of seconds (exact arithmetic); +-1 in the last printed digit is the statement\'s tolerance.'),
+         'A gap of exactly one second does not exceed a second (no separator); +-1 in the last printed digit is the statement\'s tolerance.'),
  'C17': ('metamorphic PBT: same session under both colour settings (strip-equality), coloured paste-back vs plain text, main.py\'s own texts under --color / -C / both from fresh processes',
          'Every session is run twice; stripped coloured output must equal plain output character for character.',
          'Escape sequences are those the tool itself emits (SGR).'),
